@@ -552,7 +552,8 @@ def main(plugin) -> int:
             "evaluations": len(cases) + searched,
             "distinct_nontrivial": len(distinct),
             "rule": getattr(plugin, "RULE", ""),
-            "samples": cases[len(corpus):len(corpus) + 3] + cases[-2:],
+            "samples": [getattr(plugin, "sample_view", lambda c: c)(c)
+                        for c in cases[len(corpus):len(corpus) + 3] + cases[-2:]],
             "corpus_cases": len(corpus),
             "correspondence": {"cases": len(cases), "model_lines": sum(n for _, n in spans) if ok_drv else 0,
                                "divergences": len(divergences)},
